@@ -103,8 +103,29 @@ func trap(f func() error) (outcome string, errtext string) {
 	return "returned", ""
 }
 
-var dotNode = regexp.MustCompile(`^  (\S*) \[shape="[^"]*", style="[^"]*", color="[^"]*", fillcolor="[^"]*", label=<.*> \]$`)
-var dotEdge = regexp.MustCompile(`^  (\S*) -> (\S*) \[ color="[^"]*" label = <.*> \]$`)
+// a Graphviz ID as Dot writes it: always quoted, with the escapes \" \\ and \n
+const dotID = `"((?:[^"\\]|\\.)*)"`
+
+var dotNode = regexp.MustCompile(`^  ` + dotID + ` \[shape="[^"]*", style="[^"]*", color="[^"]*", fillcolor="[^"]*", label=<.*> \]$`)
+var dotEdge = regexp.MustCompile(`^  ` + dotID + ` -> ` + dotID + ` \[ color="[^"]*" label = <.*> \]$`)
+
+func dotUnquote(s string) string {
+	var b strings.Builder
+	for i := 0; i < len(s); i++ {
+		if s[i] == '\\' && i+1 < len(s) {
+			i++
+			switch s[i] {
+			case 'n':
+				b.WriteByte('\n')
+			default:
+				b.WriteByte(s[i])
+			}
+			continue
+		}
+		b.WriteByte(s[i])
+	}
+	return b.String()
+}
 
 func parseDot(s string) O {
 	nodes, edges, unparsed := T{}, T{}, T{}
@@ -116,9 +137,9 @@ func parseDot(s string) O {
 			continue
 		}
 		if m := dotEdge.FindStringSubmatch(l); m != nil {
-			edges = append(edges, T{m[1], m[2]})
+			edges = append(edges, T{dotUnquote(m[1]), dotUnquote(m[2])})
 		} else if m := dotNode.FindStringSubmatch(l); m != nil {
-			nodes = append(nodes, m[1])
+			nodes = append(nodes, dotUnquote(m[1]))
 		} else {
 			if len(l) > 120 {
 				l = l[:120]
@@ -142,6 +163,8 @@ func parseMermaid(s string) O {
 		if m[3] != "" || strings.Contains(m[0], "[") {
 			name = m[3]
 		}
+		// quoted Mermaid text: entity codes for the double quote and for '#'
+		name = strings.Replace(strings.Replace(name, "#quot;", `"`, -1), "#35;", "#", -1)
 		ids[m[1]] = name
 		nodes = append(nodes, name)
 	}
@@ -178,6 +201,25 @@ func strs(xs []string) T {
 func one(id int, kind string, g map[string]*aNode, plain bool) O {
 	spec := build(g)
 	rec := O{"id": id, "kind": kind, "plainNames": plain}
+	// Every third generated graph has a node without content (`hollow:` in YAML, a nil *Node), which Compile replaces by an
+	// empty node; the tools are first run on the spec as loaded, uncompiled (spectool does that): they must not crash.
+	rawOutcomes := T{}
+	if kind == "gen" && id%3 == 0 {
+		if _, have := g["hollow"]; !have {
+			g["hollow"] = &aNode{Action: "none", Interp: "", Nobr: true, Branches: []aBranch{}}
+			spec.Nodes["hollow"] = nil
+		}
+		var dw0, mw0 wc
+		for _, f := range []func() error{
+			func() error { _, err := tools.Analyze(spec); return err },
+			func() error { return tools.Dot(spec, &dw0, "", "") },
+			func() error { return tools.Mermaid(spec, &mw0, nil, "", "") },
+		} {
+			oc, _ := trap(f)
+			rawOutcomes = append(rawOutcomes, oc)
+		}
+	}
+	rec["rawOutcomes"] = rawOutcomes
 	if err := spec.Compile(context.Background(), nil, true); err != nil {
 		rec["compile"] = err.Error()
 		return nil
@@ -220,7 +262,9 @@ func genGraph() (map[string]*aNode, bool) {
 	plain := rng.Intn(4) > 0
 	names := []string{"start", "a", "b", "c", "d", "e"}
 	if !plain {
-		names = []string{"start", "a b", `q"uote`, "x<y", "p&q", "n>m", "tab\tname", "{curly}"}
+		names = [][]string{{"start", "a b", `q"uote`, "x<y", "p&q", "n>m", "tab\tname", "{curly}"},
+			{"test-1", "two words", "node", "ne@xt", `a")-->n1("b`, "heat-up", "heat_up", `back\slash`, "hash#35;tag"},
+			{"start", "edge", "graph", "digraph", "strict", "subgraph", "1st", "-->", "end"}}[rng.Intn(3)]
 	}
 	nn := 1 + rng.Intn(len(names))
 	use := names[:nn]
